@@ -10,7 +10,7 @@
      started / served / hc / final / exit   what the harness observed from outside
    Result: a JSON verdict with the set of reasons for which the run is not a behaviour the
    specification (with the REQUIRED constants) allows. *)
-EXTENDS Naturals, Sequences, FiniteSets, TLC, Json, IOUtils, TLCExt
+EXTENDS Integers, Sequences, FiniteSets, TLC, Json, IOUtils, TLCExt
 
 Run == ndJsonDeserialize(IOEnv.TRACE)[1]
 TN == Run.meta.n
@@ -112,6 +112,9 @@ Track == TLCSet(1, IF SumCur(Threads) > TLCGet(1) THEN SumCur(Threads) ELSE TLCG
 ObsReasons ==
     LET m == Run.meta  s == Run.started  f == Run.final  x == Run.exit IN
     (IF s.ready_workers = m.n /\ s.panicked_threads = 0 /\ s.alive /\ s.distinct_worker_threads = m.n THEN {} ELSE {"not_all_workers_serving"})
+    \* every configured worker answered part of a burst wide enough to reach all of them (-1: not probed)
+    \cup (IF "served" \in DOMAIN Run /\ "answering_workers" \in DOMAIN Run.served /\ Run.served.answering_workers >= 0
+             /\ Run.served.answering_workers < m.n THEN {"not_all_workers_serving"} ELSE {})
     \cup (IF s.stderr_panic \/ f.stderr_panic THEN {"panic_output"} ELSE {})
     \cup (IF (s.alive /\ s.panicked_threads > 0) \/ (f.alive /\ f.stderr_panic) THEN {"keeps_running_degraded"} ELSE {})
     \cup (IF ~s.announced_ok /\ s.alive THEN {"announced_key"} ELSE {})
